@@ -2259,6 +2259,50 @@ class Engine:
             if a.ty in (TInt, TReal):
                 c = a.t <= b.t if is_min else a.t >= b.t
                 return Val(a.ty, z3.If(c, a.t, b.t))
+        kws = {k.arg: k.value for k in node.keywords}
+        if len(node.args) == 1 and set(kws) <= {"key", "default"} and isinstance(kws.get("key"), ast.Lambda) \
+                and len(kws["key"].args.args) == 1 and not kws["key"].args.defaults:
+            # max(xs, key=lambda x: e, default=d): the *first* element whose key is maximal (minimal for min)
+            xs = self.eval(node.args[0], st)
+            if not isinstance(xs.ty, TSeq):
+                raise Unsupported("min/max of a non-sequence", node)
+            tmp = fresh_name("$mm")
+            st.env[tmp] = xs
+            lam = kws["key"]
+            gen = ast.GeneratorExp(elt=lam.body, generators=[ast.comprehension(
+                target=ast.Name(id=lam.args.args[0].arg, ctx=ast.Store()), iter=ast.Name(id=tmp, ctx=ast.Load()),
+                ifs=[], is_async=0)])
+            ast.copy_location(gen, node)
+            ast.fix_missing_locations(gen)
+            keys = self.comp_to_seq(gen, st)
+            del st.env[tmp]
+            kty = keys.ty.elem
+            if kty in (TInt, TReal):
+                le = lambda a, b: a <= b  # noqa: E731
+            elif kty is TStr:
+                from .spec import str_le_fn
+                le = str_le_fn()
+            else:
+                raise Unsupported(f"min/max with keys of type {kty}", node)
+            better = (lambda a, b: le(b, a)) if is_min else le  # better(a, b): b is at least as good as a
+            n = xs.ty.len(xs.t)
+            if "default" in kws:
+                dflt = self.eval(kws["default"], st)
+            else:
+                self.raise_if(st, n <= 0, "ValueError", node.lineno)
+                dflt = None
+            k = z3.Int(fresh_name("mk"))
+            i = z3.Int(fresh_name("mi"))
+            K = lambda t: z3.Select(keys.ty.arr(keys.t), t)  # noqa: E731
+            st.assume(z3.Implies(n > 0, z3.And(
+                0 <= k, k < n,
+                z3.ForAll([i], z3.Implies(z3.And(0 <= i, i < n), better(K(i), K(k))), patterns=[K(i)]),
+                z3.ForAll([i], z3.Implies(z3.And(0 <= i, i < k), z3.Not(better(K(k), K(i)))), patterns=[K(i)]))))
+            best = Val(xs.ty.elem, z3.Select(xs.ty.arr(xs.t), k))
+            if dflt is None:
+                return best
+            a, b = self.unify(best, dflt, st, node)
+            return Val(a.ty, z3.If(n > 0, a.t, b.t))
         raise Unsupported("min/max form", node)
 
 
